@@ -661,7 +661,9 @@ def g_const(fn, edge):
                     return True, "divisor proven non-zero by a dominating comparison"
         return False, ""
     if msg.startswith("Overflow(Add)") and len(ops) == 2:
-        if all(_len_like(fn, o) for o in ops):
+        # the address-space argument is about usize/u64 arithmetic only: a u16 sum of two wire fields wraps at 65535
+        wk0 = operand_ty_kind(fn, ops[0]) or operand_ty_kind(fn, ops[1])
+        if wk0 in ("usize", "u64") and all(_len_like(fn, o) for o in ops):
             return True, "sum of lengths of live in-memory buffers / small constants cannot exceed the address space"
     if msg.startswith("Overflow(Add)") or msg.startswith("Overflow(Mul)"):
         a = upper_bound(fn, ops[0]) if ops else None
@@ -688,6 +690,7 @@ def g_const(fn, edge):
 
 
 _LENF = re.compile(r"::(len|remaining|capacity|count)$")
+_POSF = re.compile(r"iter::traits::iterator::Iterator::(position|rposition)$|str::<impl str>::(find|rfind)$|slice::<impl \[T\]>::(binary_search|partition_point)$")
 
 
 def _len_like(fn, op, depth=6):
@@ -728,6 +731,12 @@ def _len_like(fn, op, depth=6):
         k = rv["k"]
         if k == "use":
             pp = op_place(rv["a"])
+            if pp is not None and len(pp) == 3 and pp[1] == "d:Some" and pp[2] == "f:0":
+                # `if let Some(i) = iter.position(..)` / `s.find(..)`: an index into a live in-memory sequence is below its length
+                pc = fn.def_call(pp[0])
+                if pc is not None and _POSF.search(pc.path or ""):
+                    continue
+                return False
             if pp is not None and len(pp) == 2 and pp[1] == "f:0":
                 dd = fn.single_def(pp[0])
                 if dd and dd[1] != "term" and dd[2]["k"] == "binop" and dd[2]["op"] == "AddWithOverflow":
